@@ -132,7 +132,34 @@ CHECKS.update({
     note="Known finding D-LCD-NESTED-REGION-CONFLICT attributed by an exact classifier; the filter erases writing modes, so merging is judged on timing and resulting displayAlign.",
     design="DESIGN.md section 4, C16"),
 })
-NOT_CLAIMED = {}
+CHECKS.update({
+  "C11": dict(
+    technique="runtime monitoring: grammar-generated WebVTT files with the generator's AST and an independent cue-settings geometry reference as oracles over vtt.reader.to_model; exhaustive cue-settings product in the thorough tier; writer->reader round trip",
+    text="Generated WebVTT files (NOTE/STYLE/REGION blocks, identifiers, optional hours, all cue-setting combinations, nested tags, character "
+         "references, inline timestamps, ruby, LF/CRLF/CR) are read by the real reader; paragraph times must be exact rationals, payload lines and "
+         "per-character bold/italic/underline/class colours/lang/ruby role must equal the AST, inline timestamps must become the begin of the following "
+         "text, regions must lie inside the root container with the WebVTT alignments, cues with equal settings must share a region, and the writer's "
+         "output must read back.",
+    note="Known finding D-VTT-RUBY-IN-SPAN attributed by an exact classifier; exact region numbers judged for percentage lines only.",
+    design="DESIGN.md section 4, C11"),
+  "C15": dict(
+    technique="runtime monitoring: invariant walker over the live model objects after every API call + abstract tree model predicting post-states; exhaustive enumeration of call histories to depth 2 (quick) / 3 (thorough) and long random walks",
+    text="Every history of model API calls (14 operations, valid and invalid arguments) over a universe of two documents, four regions and elements "
+         "of every kind is executed on the real classes; after every call, accepted or rejected, the walker checks link/length agreement, acyclicity, "
+         "single parent, one document per tree, content model incl. ruby patterns, region identity, validity of stored style/animation/initial "
+         "values; rejected single-element calls must leave the public state unchanged; accepted calls are compared with the abstract model.",
+    note="Known finding D-REGION-REF-OFF-BODY attributed by an exact classifier; multi-element operations are not required to be atomic.",
+    design="DESIGN.md section 4, C15"),
+  "C18": dict(
+    technique="runtime monitoring: exception-site observer around every stage (reader, ISD sequence, writers, LCD filter) with a per-case interval-timer watchdog, over valid, corpus and structure-aware mutated inputs of the five formats",
+    text="Each input (generated valid files, bundled corpus, token-level and byte-level mutations, hostile snippets, STL block surgery) is read under a "
+         "sampled reader configuration; only the documented failures are accepted from readers; every returned document goes through ISD generation "
+         "(cached and uncached), sampled SRT/VTT/IMSC writer configurations, the LCD filter and the writers again; any other exception, identified by "
+         "type and innermost ttconv frame, or a stage that does not return within 30 s, is a violation.",
+    note="Known finding D-VTT-RUBY-IN-SPAN attributed by an exact classifier; configurations sampled per input; termination bounded by the watchdog.",
+    design="DESIGN.md section 4, C18"),
+})
+NOT_CLAIMED = {"C04": "check under construction (reference TTML reader + schema generator being built and validated); not claimed until silent on the unchanged tree and sensitive to the planned mutants"}
 
 def main():
   props = [json.loads(l) for l in open(os.path.join(HERE, "properties.jsonl"))]
